@@ -153,6 +153,35 @@ def run_tree(cfg):
     return r.dump()
 
 
+def run_emcee_evidence(cfg):
+    """The plain MCMC sampler's evidence is an importance-sampling estimate: it must be the mean weight of an unselected
+    batch of n_samples proposal draws (here: of the last batch the proposal handed out), also when part of the proposal's
+    mass lies outside the prior and the walkers therefore had to be drawn by rejection."""
+    from env import any_run
+    from oracles import ref
+
+    r = Report()
+    case = {"emcee_evidence": True, "cfg": cfg}
+    r.case(explorer.digest(case), nontrivial=cfg["precond"] == "tight")
+    R = any_run.run_simple(cfg)
+    if R.exception is not None:
+        r.violation(f"C01/emcee/run-raises/{R.exception[0]}/{R.exception[1]}", R.exception, case)
+        return r.dump()
+    x, lq = R.flow.last_draw
+    with np.errstate(all="ignore"):
+        lw = R.problem["like"](x) + R.problem["prior"](x) - lq
+    lw = np.where(np.isnan(lw), -np.inf, lw)
+    want = float(ref.log_mean_exp(lw.tolist()))
+    got = float(tonp(R.final_obj.log_evidence))
+    r.outcomes.add(round(want, 9))
+    if len(x) != cfg["N"]:
+        r.violation("C01/emcee/evidence-batch-size", {"batch": len(x), "n_samples": cfg["N"]}, case)
+    elif not abs(got - want) <= (1e-5 if cfg.get("ns") == "torch" else 1e-9) * (1 + abs(want)):  # torch's default width is float32
+        r.violation("C01/emcee/evidence-not-mean-weight-of-a-proposal-batch", {"got": got, "want": want, "zero_weight_draws": int(np.sum(~np.isfinite(lw)))}, case)
+    r.sample(case)
+    return r.dump()
+
+
 def configs(tier):
     out = []
     # "cut": likelihood with a hard support cut (zero-weight particles); "leak": proposal support leaks
@@ -204,11 +233,25 @@ def run(tier, seed, workers):
     rep = Report()
     for d in pmap("checks.c01", "run_tree", cfgs, workers):
         rep.merge(d)
+    ecfgs = []
+    for precond in ("none", "tight"):
+        for ns in ("numpy", "torch"):
+            for sd in sorted({0, 1, seed}):
+                for N, nw in ((8, None), (8, 12), (12, 8)):  # walkers = / > / < n_samples
+                    c = {"sampler": "emcee", "N": N, "opts": {}, "precond": precond, "seed": sd, "ns": ns}
+                    if nw:
+                        c["mcmc_opts"] = {"nwalkers": nw}
+                    ecfgs.append(c)
+    for d in pmap("checks.c01", "run_emcee_evidence", ecfgs, workers):
+        rep.merge(d)
     return rep
 
 
 def replay(case):
     r = Report()
+    if case.get("emcee_evidence"):
+        r.merge(run_emcee_evidence(case["cfg"]))
+        return r
     cfg = (case["target"], case["precond"], case["sampler"], case["n_steps"], case["n_final"], case["K"], case["skew"], case["ns"])
     r.merge(run_tree(cfg))
     return r
